@@ -29,8 +29,10 @@ def fp_str(fp):
     return hashlib.sha1("|".join(fp).encode()).hexdigest()[:10]
 
 
-def run_one(mod, run_seed, replay=None, lenient=False, keep_trace=False, variant=None):
-    """Execute one simulated run.  Returns a result dict (never raises)."""
+def run_one(mod, run_seed, replay=None, lenient=False, keep_trace=False, case=None):
+    """Execute one simulated run.  Returns a result dict (never raises).
+    case: an explicit workload case (JSON-able) that the scenario runs instead of generating one
+    (used by case-level minimisation and by replay files that carry a minimised case)."""
     from . import shims
     shims.install()
     kw = dict(getattr(mod, "SIM_KW", {}))
@@ -38,6 +40,7 @@ def run_one(mod, run_seed, replay=None, lenient=False, keep_trace=False, variant
         kw.update(mod.sim_kw(run_seed))
     sim = Sim(run_seed, replay=replay, lenient=lenient, **kw)
     sim.record_history = True
+    sim.case = case
     res = {"seed": run_seed, "status": "ok"}
     gc_was = gc.isenabled()
     gc.disable()
@@ -304,15 +307,44 @@ def shrink(mod, seed, sparse, fp, budget_runs=200, budget_s=90.0):
     return best[0], runs[0]
 
 
+def shrink_case(mod, seed, sparse, fp, case, budget_runs=120, budget_s=60.0):
+    """Greedy minimisation of an explicit workload case (module supplies case_candidates and
+    same_class).  Returns (case, result of the final run, runs used)."""
+    t_end = time.time() + budget_s
+    runs = 0
+    rep = replay_dict(sparse)
+    best = case
+    best_r = run_one(mod, seed, replay=rep, lenient=True, case=best, keep_trace=True)
+    runs += 1
+    if not (best_r["status"] == "violation" and mod.same_class(best_r["fingerprint"], fp)):
+        return None, None, runs
+    progress = True
+    while progress and runs < budget_runs and time.time() < t_end:
+        progress = False
+        for cand in mod.case_candidates(best):
+            if runs >= budget_runs or time.time() > t_end:
+                break
+            r = run_one(mod, seed, replay=rep, lenient=True, case=cand, keep_trace=True)
+            runs += 1
+            if r["status"] == "violation" and mod.same_class(r["fingerprint"], fp):
+                best, best_r = cand, r
+                progress = True
+                break
+    return best, best_r, runs
+
+
 def write_replay(pid, seed, sparse, fp, message, digest, trace_tail, details=None,
-                 directory=None, name=None):
+                 directory=None, name=None, case=None):
     d = directory or os.path.join(OUT, "replays")
     os.makedirs(d, exist_ok=True)
     path = os.path.join(d, name or "%s-%d-%s.json" % (pid, seed, fp_str(fp)))
     with open(path, "w") as f:
-        json.dump({"property": pid, "seed": seed, "choices": sparse, "fingerprint": list(fp),
-                   "message": message, "digest": digest, "details": details,
-                   "trace_tail": trace_tail}, f, indent=1)
+        d = {"property": pid, "seed": seed, "choices": sparse, "fingerprint": list(fp),
+             "message": message, "digest": digest, "details": details,
+             "trace_tail": trace_tail}
+        if case is not None:
+            d["case"] = case
+        json.dump(d, f, indent=1)
     return path
 
 
@@ -320,8 +352,8 @@ def replay_file(path, strict=True):
     with open(path) as f:
         rp = json.load(f)
     mod = load_check(rp["property"])
-    r = run_one(mod, rp["seed"], replay=replay_dict(rp["choices"]), lenient=not strict,
-                keep_trace=True)
+    r = run_one(mod, rp["seed"], replay=replay_dict(rp["choices"]),
+                lenient=(not strict) or rp.get("case") is not None, keep_trace=True, case=rp.get("case"))
     ok = same_violation(r, rp["fingerprint"]) and (r["digest"] == rp["digest"])
     return rp, r, ok
 
@@ -376,11 +408,43 @@ def run_check(pid, tier, seed, jobs):
         if e.get("traceback"):
             harness_errors.append(e["traceback"])
     shrink_deadline = time.time() + float(os.environ.get("VERIF_SHRINK_S", "150"))
-    for fp, v in sorted(groups.items()):
+    minimize = bool(getattr(mod, "MINIMIZE_CASES", False))
+    seen_final = set()
+    order = sorted(groups.items(), key=lambda kv: (len(json.dumps((kv[1].get("details") or {}).get("case"))), kv[0])
+                   if minimize else kv[0])
+    for fp, v in order:
         if fp in known_fps:
             known_hit[fp] = sum(1 for x in agg["violations"] if tuple(x["fingerprint"]) == fp)
             continue
         left = shrink_deadline - time.time()
+        case0 = (v.get("details") or {}).get("case") if minimize else None
+        if case0 is not None:
+            # minimise the workload case itself; the fingerprint of the minimal case is the finding
+            if left <= 5 or len(new_violations) >= 12:
+                if new_violations:
+                    continue        # already reporting; the remaining raw groups are not minimised
+                left = 30.0
+            case, r, nshrink = shrink_case(mod, v["seed"], v["choices"], fp, case0, budget_s=min(45.0, left))
+            if case is None:
+                harness_errors.append("violation %s (seed %d) did not replay in-process from its case: %s"
+                                      % (fp, v["seed"], v["message"]))
+                continue
+            ffp = tuple(r["fingerprint"])
+            if ffp in known_fps:
+                known_hit[ffp] = known_hit.get(ffp, 0) + 1
+                continue
+            if ffp in seen_final:
+                continue
+            seen_final.add(ffp)
+            path = write_replay(pid, v["seed"], v["choices"], ffp, r["message"], r["digest"],
+                                r.get("trace_tail"), r.get("details"), case=case)
+            ok, out = replay_in_fresh_interpreter(path)
+            if not ok:
+                harness_errors.append("replay %s did not reproduce in a fresh interpreter:\n%s"
+                                      % (path, out[-2000:]))
+                continue
+            new_violations.append((ffp, {"message": r["message"]}, path, nshrink))
+            continue
         if left > 5 and len(new_violations) < 12:
             sparse, nshrink = shrink(mod, v["seed"], v["choices"], fp, budget_s=min(60.0, left))
         else:
